@@ -1,4 +1,5 @@
 #!/bin/sh
-# run every claimed check (quick tier) and print one line per property
+# engine self-test, then every claimed check (quick tier); one line per property
 cd /verif
-for p in $(python3 -c "import json; print(' '.join(c['property_id'] for c in json.load(open('MANIFEST.json'))['checks']))"); do ./vcheck prop $p "$@" 2>&1 | tail -1; done
+./vcheck selftest go 2>&1 | grep -v WARNING | tail -3
+for p in $(python3 -c "import json; print(' '.join(c['property_id'] for c in json.load(open('MANIFEST.json'))['checks']))"); do ./vcheck prop $p "$@" 2>&1 | grep -v WARNING | tail -1; done
